@@ -34,3 +34,56 @@ char *fx6_stp_advanced_s(char *dest, size_t dmax, const char *src, int *errp) { 
     }
     *errp = 406; return 0;
 }
+/* primitive byte accounting: alignment prologue, word loop, tail -- and variants that lose or double bytes */
+#include <stdint.h>
+#define FX_MOVE(NAME, ALIGN_COUNT, WORDS, TAIL)                               \
+    void NAME(void *dest, const void *src, uint32_t len) {                    \
+        uint8_t *dp = (uint8_t *)dest;                                        \
+        const uint8_t *sp = (const uint8_t *)src;                             \
+        uint64_t t = (uintptr_t)sp;                                           \
+        if ((t | (uintptr_t)dp) & 7) {                                        \
+            if (((t ^ (uintptr_t)dp) & 7) || len < 8) t = len;                \
+            else t = ALIGN_COUNT;                                             \
+            len -= t;                                                         \
+            do { *dp++ = *sp++; } while (--t);                                \
+        }                                                                     \
+        t = WORDS;                                                            \
+        if (t > 0) {                                                          \
+            do { *(uint64_t *)dp = *(const uint64_t *)sp; sp += 8; dp += 8; } while (--t); \
+        }                                                                     \
+        t = TAIL;                                                             \
+        if (t > 0) {                                                          \
+            do { *dp++ = *sp++; } while (--t);                                \
+        }                                                                     \
+    }
+FX_MOVE(fx6_move_good, 8 - (t & 7), len / 8, len & 7)
+FX_MOVE(fx6_move_no_tail, 8 - (t & 7), len / 8, 0)          /* the last len & 7 bytes are never copied */
+FX_MOVE(fx6_move_words_wrong, 8 - (t & 7), len / 8 + 1, len & 7)   /* one word more than fits */
+FX_MOVE(fx6_move_align_wrong, 16 - (t & 7), len / 8, len & 7)  /* up to 16 alignment bytes although only len >= 8 is known: len -= t may wrap */
+void fx6_set_good(uint32_t *dest, uint32_t len, uint32_t value) {
+    volatile uint32_t *dp = dest;
+    while (len != 0) {
+        switch (len) {
+        default: *dp++ = value; *dp++ = value; *dp++ = value; *dp++ = value; len -= 4; break;
+        case 3: *dp++ = value; /* FALLTHRU */
+        case 2: *dp++ = value; /* FALLTHRU */
+        case 1: *dp++ = value; len = 0; break;
+        }
+    }
+}
+void fx6_set_case_short(uint32_t *dest, uint32_t len, uint32_t value) {      /* case 3 falls into the code of case 1: one element short */
+    volatile uint32_t *dp = dest;
+    while (len != 0) {
+        switch (len) {
+        default: *dp++ = value; *dp++ = value; *dp++ = value; *dp++ = value; len -= 4; break;
+        case 3: *dp++ = value; /* FALLTHRU */
+        case 1: *dp++ = value; len = 0; break;
+        case 2: *dp++ = value; *dp++ = value; len = 0; break;
+        }
+    }
+}
+void fx6_move_swapped(uint8_t *dest, const uint8_t *src, uint32_t len) {     /* copies src[len-1-k] ... wrong element */
+    uint8_t *dp = dest;
+    const uint8_t *sp = src + 1;
+    while (len != 0) { *dp++ = *sp++; len--; }
+}
